@@ -21,6 +21,8 @@ TF(b) == IF b THEN "T" ELSE "F"
 Has(e, k) == k \in DOMAIN e
 Unchanged(e) == ({"A"} \cap DOMAIN e = {} \/ ToAut(e.res.A_after) = ToAut(e.A))
              /\ ({"B"} \cap DOMAIN e = {} \/ ToAut(e.res.B_after) = ToAut(e.B))
+             \* a copy of A (sharing its storage) that was alive during the call still has A's value
+             /\ ({"keep_after"} \cap DOMAIN e.res = {} \/ ToAut(e.res.keep_after) = ToAut(e.A))
 Why(b, s) == IF b THEN {} ELSE {s}
 
 SelNames == <<"up", "up_sim", "dn", "dn_sim", "dr", "dr_sim", "dro", "dro_sim">>
